@@ -108,6 +108,27 @@ def stepKernel (s : St) : St × String :=
       | none => s!"consume slot {s.H % s.len} torn")
   else (s, "idle")
 
+/-- The kernel consumes `n` entries (fewer if fewer are published). -/
+def consumeN : Nat → St → St
+  | 0, s => s
+  | n + 1, s => consumeN n (stepKernel s).1
+
+/-- `Shared::unsubmitted_submissions` (src/io_uring/mod.rs:250-262): the head is
+loaded before the tail, the difference is computed with `wrapping_sub`. -/
+def unsubmitted (s : St) : Nat := wsub (tail32 s) (head32 s)
+
+/-- `Shared::enter` (mod.rs:154-210) on a ring without SQPOLL, as called by
+`Ring::poll`: `io_uring_enter(to_submit = unsubmitted_submissions(), …)`; the
+kernel consumes that many entries. (Both loads and the system call are one
+step: the caller holds no lock and the submitters only ever increase the tail,
+so a later tail only makes `to_submit` smaller than what is published.) -/
+def stepEnter (s : St) : St × String :=
+  let n := unsubmitted s
+  let s' := consumeN n s
+  let got := (s'.consumed.drop s.consumed.length).map
+    (fun v => match v with | some e => toString e | none => "torn")
+  (s', s!"enter {n} consumed {if got.isEmpty then "-" else joinWith "," got}")
+
 /-- A new call of `add` by thread `i` (after the previous one finished). -/
 def restart (s : St) (i : Nat) (entry : Nat) : St × String :=
   match s.thr[i]? with
@@ -172,6 +193,9 @@ def stepLine (s : St) (toks : List String) : St × List String :=
         (s', [s!"t{i} {(pcOf s' i).map showPc |>.getD "?"} {showState s'}"])
     | none => (s, ["bad-op"])
   | ["sq", "kernel"] => let (s', o) := stepKernel s; (s', [s!"{o} {showState s'}"])
+  | ["sq", "enter"] =>
+    if s.thr.isEmpty then (s, ["bad-op"])
+    else let (s', o) := stepEnter s; (s', [s!"{o} {showState s'}"])
   | ["sq", "again", i, e] =>
     match parseNat i, parseNat e with
     | some i, some e => let (s', o) := restart s i e; (s', [o])
